@@ -38,13 +38,13 @@ FAMILIES = {
     # named groups, ignore expression, nested keys, list values (unhashable), None values that are used
     "named": {
         "re": r"(?P<id>[a-c]+);(?P<x>[0-9]*)(?:;(?P<y>[a-z,]+))?",
-        "ign": r"|#.*",
+        "ign": r"|#.*|b;9.*",
         "sid": ("id", [], False),
         "vars": [("x", "x", [], False, False),
                  ("n:y", "y", [("string.split", ",")], False, False),
                  ("n:u", "y", [("string.to_upper", None)], False, True)],
         "lines": ["a;1", "b;1", "a;2", "b;2;p,q", "c;1;p,q", "c;;p", "a;1;p,q", "b;;q,p", "#x", "", "bad line",
-                  "a;1\x0c", "#\x85x", "c;2;p"],
+                  "a;1\x0c", "#\x85x", "c;2;p", "b;9", "b;9;p,q", "a;2;p,q"],
         "finds": [("x", "1"), ("x", "2"), ("x", ""), ("n:y", ["p", "q"]), ("n:y", ["p"]), ("n:u", None),
                   ("n:u", "P,Q"), ("x", None), ("zz", "1"), ("n:y", "p,q"), ("n:y", None), ("n", "1"), ("x", 1),
                   ("n:y", ["q", "p"])],
@@ -331,12 +331,12 @@ class C14(Check):
                     continue
                 seqs = [[a, b] for a in pool for b in pool if a != b]
                 if quick:
-                    seqs = rng.sample(seqs, 8)
+                    seqs = rng.sample(seqs, 10)
                 for seq in seqs:
                     h = []
                     for stt in seq:
                         h.append(("edit", stt))
-                        h.extend(bat if not quick else rng.sample(bat, min(len(bat), 6)))
+                        h.extend(bat if not quick else rng.sample(bat, min(len(bat), 9)))
                     yield dict(fl, fam=fam, init=rng.choice(pool), hist=h)
         # 2. line endings: every pair of terminators between three lines, with and without one at EOF
         f = FAMILIES["numbered"]
@@ -346,13 +346,13 @@ class C14(Check):
                     txt = "a 1" + e1 + "b x" + e2 + "c x" + e3
                     yield {"fam": "numbered", "cache": True, "ffm": False, "mis": "error", "dup": "error",
                            "init": ("text", txt), "hist": [("get", "a.d"), ("get", "b.d"), ("get", "c.d"), ("find", "v", "x")]}
-        # a CR LF pair across the decoder's chunk boundary (8192 bytes)
-        for pad in (8188, 8189, 8190, 8191, 8192):
-            txt = "a " + "1" * pad + "\r\n" + "b x\r\n"
+        # a CR LF pair across the decoder's chunk boundary (8192 bytes); padding outside every group
+        for pad in ((8188, 8189) if quick else (8186, 8187, 8188, 8189, 8190, 8191)):
+            txt = "a" + " " * pad + "1\r\n" + "b x\r\n"
             yield {"fam": "numbered", "cache": True, "ffm": False, "mis": "error", "dup": "error",
                    "init": ("text", txt), "hist": [("get", "a.d"), ("get", "b.d")]}
         # 3. random histories: <= 6 edits interleaved with calls
-        n = 700 if quick else 12000
+        n = 5000 if quick else 60000
         fams = list(FAMILIES)
         flags = list(self.flags())
         for _ in range(n):
